@@ -38,7 +38,7 @@ func CheckC06(c *Ctx) int {
 	}, true)
 	scs = append(scs, concurrentScenarios("c06c", c.Pick(6, 80), c.Seed)...)
 	scs = append(scs, faultScenarios("c06f", c.Pick(6, 60), c.Seed, true)...)
-	o := RunScenarios(scs, ValidateSpec{Bolt: true}, filepath.Join(c.WorkDir, "runs"), 14, 5, 10*time.Minute)
+	o := RunScenarios(scs, ValidateSpec{Bolt: true}, filepath.Join(c.WorkDir, "runs"), 14, 5, c.ChildTimeout())
 	c.Absorb(o)
 	c.Cov["evaluations"] = o.Counters["io"]
 	c.Cov["distinct_nontrivial"] = DistinctNontrivial(o.PerScenario, func(m map[string]int) bool { return m["io"] > 20 && m["alloc_from_free"] > 0 })
@@ -69,7 +69,7 @@ func CheckC07(c *Ctx) int {
 	}, true)...)
 	scs = append(scs, nestedDeleteScenarios("c07n", c.Pick(12, 150), c.Seed)...)
 	scs = append(scs, faultScenarios("c07f", c.Pick(6, 60), c.Seed, false)...)
-	o := RunScenarios(scs, ValidateSpec{Bolt: true}, filepath.Join(c.WorkDir, "runs"), 14, 5, 10*time.Minute)
+	o := RunScenarios(scs, ValidateSpec{Bolt: true}, filepath.Join(c.WorkDir, "runs"), 14, 5, c.ChildTimeout())
 	c.Absorb(o)
 	c.Cov["evaluations"] = o.Counters["decoded"]
 	c.Cov["distinct_nontrivial"] = DistinctNontrivial(o.PerScenario, func(m map[string]int) bool { return m["decoded"] > 3 && m["free"] > 5 })
@@ -223,7 +223,7 @@ func CheckC10(c *Ctx) int {
 			Params: map[string]int{"keys": 10 + 13*(i%5), "rounds": c.Pick(120, 300), "reopenEvery": []int{0, 40, 0, 25}[i%4]}})
 	}
 	scs = append(scs, concurrentScenarios("c10c", c.Pick(6, 60), c.Seed)...)
-	o := RunScenarios(scs, ValidateSpec{Bolt: true}, filepath.Join(c.WorkDir, "runs"), 14, 5, 10*time.Minute)
+	o := RunScenarios(scs, ValidateSpec{Bolt: true}, filepath.Join(c.WorkDir, "runs"), 14, 5, c.ChildTimeout())
 	c.Absorb(o)
 	c.Cov["evaluations"] = o.Counters["commit"]
 	c.Cov["distinct_nontrivial"] = DistinctNontrivial(o.PerScenario, func(m map[string]int) bool { return m["commit"] > 5 && m["alloc_from_free"] > 3 })
